@@ -1408,7 +1408,7 @@ def replay_items(ctx):
 
 def run(ctx):
     rng = ctx.rng
-    ctx.gen_consts(["modopt", "dsh"])
+    ctx.gen_consts(["modopt", "dsh", "hostlist"])      # hostlist: the composed model (regcli) runs C02's hostlist model
     ctx.lean_build([PROPS, "pdshmodel"])
     ctx.audit(PROPS)
     cov = {"evaluations": 0, "distinct_nontrivial": 0, "samples": [],
